@@ -250,7 +250,7 @@ func (s *Server) publishDiagnostics(ctx context.Context, docURI protocol.Documen
 	resolved, loadErrors := s.loader.LoadFromContent(path, content)
 	s.resolved.Store(docURI, &resolvedEntry{content: content, journal: resolved})
 
-	diagnostics := s.analyze(content)
+	diagnostics := s.analyzeWithIncludes(content, resolved)
 
 	for _, err := range loadErrors {
 		severity := protocol.DiagnosticSeverityError
@@ -295,6 +295,12 @@ func (s *Server) publishIfCurrent(ctx context.Context, docURI protocol.DocumentU
 }
 
 func (s *Server) analyze(content string) []protocol.Diagnostic {
+	return s.analyzeWithIncludes(content, nil)
+}
+
+// analyzeWithIncludes analyses a document; declarations made in the files of
+// its include tree (resolved) count like its own, as do those of the workspace.
+func (s *Server) analyzeWithIncludes(content string, resolved *include.ResolvedJournal) []protocol.Diagnostic {
 	journal, parseErrs := parser.Parse(content)
 
 	diagnostics := make([]protocol.Diagnostic, 0, len(parseErrs))
@@ -320,6 +326,11 @@ func (s *Server) analyze(content string) []protocol.Diagnostic {
 	if s.workspace != nil {
 		external.Accounts = s.workspace.GetDeclaredAccounts()
 		external.Commodities = s.workspace.GetDeclaredCommodities()
+	}
+	if resolved != nil && len(resolved.Files) > 0 {
+		included := analyzer.DeclaredInResolved(&include.ResolvedJournal{Files: resolved.Files})
+		external.Accounts = mergeDeclared(external.Accounts, included.Accounts)
+		external.Commodities = mergeDeclared(external.Commodities, included.Commodities)
 	}
 
 	var result *analyzer.AnalysisResult
@@ -353,6 +364,22 @@ func (s *Server) analyze(content string) []protocol.Diagnostic {
 	}
 
 	return diagnostics
+}
+
+// mergeDeclared returns the union of two declaration sets without modifying
+// either (the workspace hands out its cached maps).
+func mergeDeclared(a, b map[string]bool) map[string]bool {
+	if len(b) == 0 {
+		return a
+	}
+	merged := make(map[string]bool, len(a)+len(b))
+	for k := range a {
+		merged[k] = true
+	}
+	for k := range b {
+		merged[k] = true
+	}
+	return merged
 }
 
 func (s *Server) shouldIncludeDiagnostic(code string, settings diagnosticsSettings) bool {
